@@ -64,3 +64,14 @@ Theorem C04_std_ed25519_legacy : forall O pk t inp c lh,
   covenant_accepts O (std_ed25519_legacy pk) (env_heap t inp c idx lh) = sig_check O pk t 0.
 Proof. exact std_legacy_accepts_iff. Qed.
 Print Assumptions C04_std_ed25519_legacy.
+
+(* which header "the last header" of the environment is: the one stored for the previous height, i.e. for a block
+   built with next_unsealed the header of the block just sealed - never the header of the block being built *)
+Theorem C04_covenants_see_the_parent_header : forall SO (rf : wstate -> roots) s h txs,
+  s_history s !! (s_height s - 1) = Some h -> apply_batch SO rf s txs = apply_tx_batch SO s h txs.
+Proof. exact apply_batch_uses_the_parent_header. Qed.
+Print Assumptions C04_covenants_see_the_parent_header.
+Theorem C04_block_covenants_see_the_sealed_parent : forall SO (rf : wstate -> roots) s hdr txs,
+  apply_batch SO rf (next_unsealed s hdr) txs = apply_tx_batch SO (next_unsealed s hdr) hdr txs.
+Proof. exact block_covenants_see_the_sealed_parent. Qed.
+Print Assumptions C04_block_covenants_see_the_sealed_parent.
